@@ -344,4 +344,49 @@ theorem c03c_single_scope (s : Sys) (hs : s.Inv) (t : Scope) (hv : s.ValidScope 
     have := hk (op :: pre) op' post (by simp [heq])
     simpa [Sys.run] using this
 
+/-! ### full-URI strings: compaction denotes the URI it was given -/
+
+theorem dropPrefix_eq_drop : ∀ (pre s rest : List Char), dropPrefix? pre s = some rest → s = pre ++ rest ∧ rest = s.drop pre.length
+  | [], s, rest, h => by simp [dropPrefix?] at h; subst h; simp
+  | _ :: _, [], rest, h => by simp [dropPrefix?] at h
+  | p :: ps, x :: xs, rest, h => by
+    simp only [dropPrefix?] at h
+    split at h
+    · next hpx =>
+      obtain ⟨h1, h2⟩ := dropPrefix_eq_drop ps xs rest h
+      subst hpx
+      exact ⟨by rw [h1]; rfl, by simpa using h2⟩
+    · exact absurd h (by simp)
+
+theorem sStartsWith_dropLen (s pre : String) (h : sStartsWith s pre = true) : pre ++ sDropLen s pre = s := by
+  unfold sStartsWith startsWith at h
+  obtain ⟨rest, hr⟩ := Option.isSome_iff_exists.mp h
+  obtain ⟨h1, h2⟩ := dropPrefix_eq_drop _ _ _ hr
+  apply String.ext
+  simp only [String.toList_append, sDropLen, String.toList_ofList]
+  rw [← h2]; exact h1.symm
+
+/-- **compaction**: the name chosen for a full URI denotes exactly that URI (whichever namespace is chosen) -/
+theorem c03_compact_uri (vals : List Ns) (s : String) (q : QName) (h : compact vals s = some q) : q.uri = s := by
+  induction vals with
+  | nil => simp [compact] at h
+  | cons n rest ih =>
+    simp only [compact] at h
+    split at h
+    · next hs =>
+      cases h
+      exact sStartsWith_dropLen s n.uri hs
+    · exact ih h
+
+/-- a string with an unregistered scheme (no prefix and no renamed prefix of that name) that the manager resolves on its own
+    denotes itself -/
+theorem c03_full_uri_denotes_itself (m : NsMgr) (s : String) (p l : List Char) (hs : splitAt1 ':' s.toList = some (p, l))
+    (h1 : m.tbl.get? (String.ofList p) = none) (h2 : m.pren.get? (String.ofList p) = none) (q : QName)
+    (h : m.resolveOwn s = some q) : q.uri = s := by
+  simp only [NsMgr.resolveOwn, hs, h1, h2] at h
+  exact c03_compact_uri _ s q h
+
+example : (compact [⟨"ex", "http://a/"⟩] "http://a/r?u=http://a/z").map QName.uri = some "http://a/r?u=http://a/z" := by decide
+
+
 end Prov.C03
